@@ -276,6 +276,9 @@ func (c *Cluster) probe(ctx context.Context, sc *DkgScenario, parts []uint64, co
 				sigs[id] = s
 				signOK = true
 			}
+			if bk, isByz := c.Byz[id]; isByz {
+				sigs[id] = *bk.SignByte(root[:]) // the faulty participant keeps signing with its other key
+			}
 		}
 		wn, _, _ := strings.Cut(sc.Account, "/")
 		lres, err := in.St.ListerH.ListAccounts(cctx, roundTrip(&pb.ListAccountsRequest{Paths: []string{wn}}, &pb.ListAccountsRequest{}))
